@@ -372,3 +372,173 @@ Theorem C01_unknown_host_cache_would_poison :
   serve_seq (process [(sites, [])]) [r q1; r q2] = [Some (NotFound 404); Some (Site 1 (bs "/app"%string))].
 Proof. exact unknown_host_cache_poisons. Qed.
 Print Assumptions C01_unknown_host_cache_would_poison.
+
+(* ===================== the outcome is a function of the declared map / set ===================== *)
+(* The routing outcome of EVERY request depends on the declared site list only through the map
+   (normalised host pattern, path prefix) -> site it denotes ([owner]: the last declaration at an
+   address): any two site lists denoting the same map — any order, any repetitions, any spelling
+   of the addresses (letter case, port, brackets), host patterns with any number of leading "*"
+   labels, catch-alls, any path bytes — route every request identically. No uniqueness
+   hypothesis. *)
+Theorem C01_route_function_of_declared_map : forall sites sites',
+  (forall h p, owner sites h p = owner sites' h p) ->
+  forall xf hh up proto,
+    tserve (tbuild sites) xf hh up proto = tserve (tbuild sites') xf hh up proto.
+Proof. exact route_function_of_owner. Qed.
+Print Assumptions C01_route_function_of_declared_map.
+Example C01_route_function_of_declared_map_nonvacuous :
+  let sites  := [(bs "a.com/x"%string, 9); (bs "*.*.com"%string, 2); (bs "A.com:80/x"%string, 1); (bs "*.a.com"%string, 3)] in
+  let sites' := [(bs "*.a.com:2015"%string, 3); (bs "a.COM/x"%string, 1); (bs "*.*.com"%string, 2)] in
+  (forall h p, owner sites h p = owner sites' h p) /\
+  tserve (tbuild sites) [] (bs "b.a.com"%string) (bs "/"%string) 1 = Site 3 (bs "/"%string) /\
+  tserve (tbuild sites') [] (bs "c.b.com"%string) (bs "/"%string) 1 = Site 2 (bs "/"%string).
+Proof.
+  cbv zeta. split; [|vm_compute; auto].
+  intros h p. unfold owner, at_addr. cbn [rev app find fst].
+  repeat match goal with |- context [addr_host ?a] => let v := eval vm_compute in (addr_host a) in change (addr_host a) with v end.
+  repeat match goal with |- context [addr_path ?a] => let v := eval vm_compute in (addr_path a) in change (addr_path a) with v end.
+  repeat match goal with |- context [beq ?k h] =>
+    let H := fresh "H" in destruct (beq k h) eqn:H; [apply beq_eq in H; subst h|] end;
+  repeat match goal with |- context [beq ?k p] =>
+    let H := fresh "H" in destruct (beq k p) eqn:H; [apply beq_eq in H; subst p|] end;
+  vm_compute; reflexivity.
+Qed.
+
+(* ... in particular of the SET of declarations when addresses are unique: two lists with the
+   same elements (any order) route identically *)
+Theorem C01_route_function_of_declared_set : forall sites sites',
+  NoDup (map addr_key sites) -> NoDup (map addr_key sites') ->
+  (forall a s, In (a, s) sites <-> In (a, s) sites') ->
+  forall xf hh up proto,
+    tserve (tbuild sites) xf hh up proto = tserve (tbuild sites') xf hh up proto.
+Proof. exact route_function_of_declared_set. Qed.
+Print Assumptions C01_route_function_of_declared_set.
+
+(* ===================== the request-target: routing sees the decoded path only ================= *)
+(* unescape (url.ParseRequestURI's path decoding) decodes exactly the spellings: raw decodes to p
+   iff every octet of p is written in raw as itself or as "%" + two hex digits of either case *)
+Theorem C01_target_decoding_is_spelling : forall raw p, unescape raw = Some p <-> spells raw p.
+Proof. exact unescape_spells. Qed.
+Print Assumptions C01_target_decoding_is_spelling.
+
+(* every origin-form target that spells the path p — percent-encoded ASCII ("%2F" for "/"
+   inside a site's prefix, "%61" for "a"), percent-encoded non-ASCII or invalid UTF-8 octets, hex
+   digits of either case, any query — is routed as the declarative [spec] says for p *)
+Theorem C01_target_routes_by_decoded_path : forall sites xf hh raw p proto,
+  target_ok raw = true -> spells (upto_q raw) p ->
+  tserve_target (tbuild sites) xf hh raw proto = Some (spec sites xf hh p proto).
+Proof. exact target_route_decoded. Qed.
+Print Assumptions C01_target_routes_by_decoded_path.
+
+Theorem C01_target_spelling_irrelevant : forall sites xf hh raw raw' p proto,
+  target_ok raw = true -> target_ok raw' = true ->
+  spells (upto_q raw) p -> spells (upto_q raw') p ->
+  tserve_target (tbuild sites) xf hh raw proto = tserve_target (tbuild sites) xf hh raw' proto.
+Proof. exact target_route_spelling_irrelevant. Qed.
+Print Assumptions C01_target_spelling_irrelevant.
+Example C01_target_spelling_nonvacuous :
+  let sites := [(bs "a.com/a/b"%string, 1); (bs "a.com/caf"%string ++ [195;169], 2); (bs "a.com"%string, 3)] in
+  target_ok (bs "/a%2fb/c?x=/caf"%string) = true /\
+  spells (upto_q (bs "/a%2fb/c?x=/caf"%string)) (bs "/a/b/c"%string) /\
+  spells (upto_q (bs "/%61%2Fb/c"%string)) (bs "/a/b/c"%string) /\
+  tserve_target (tbuild sites) [] (bs "A.com"%string) (bs "/a%2fb/c?x=/caf"%string) 1 = Some (Site 1 (bs "/a/b"%string)) /\
+  tserve_target (tbuild sites) [] (bs "A.com"%string) (bs "/caf%c3%A9/x"%string) 1 = Some (Site 2 (bs "/caf"%string ++ [195;169])) /\
+  tserve_target (tbuild sites) [] (bs "A.com"%string) (bs "/caf%C3"%string) 1 = Some (Site 3 (bs "/"%string)) /\
+  tserve_target (tbuild sites) [] (bs "A.com"%string) (bs "/caf%C"%string) 1 = None.
+Proof.
+  cbv zeta. repeat split; try (vm_compute; reflexivity); apply unescape_spells; vm_compute; reflexivity.
+Qed.
+
+Theorem C01_target_spelling_functional : forall raw p p', spells raw p -> spells raw p' -> p = p'.
+Proof. exact spells_functional. Qed.
+Print Assumptions C01_target_spelling_functional.
+
+(* a target is rejected (no routing at all) exactly when it is not origin-form / has a control
+   byte, or its path text has no spelling reading (a "%" without two hex digits) *)
+Theorem C01_target_rejected_iff : forall raw,
+  target_path raw = None <-> (target_ok raw = false \/ forall p, ~ spells (upto_q raw) p).
+Proof. exact target_rejected_iff. Qed.
+Print Assumptions C01_target_rejected_iff.
+
+Theorem C01_hex_digit_case_irrelevant : forall h,
+  (65 <=? h) && (h <=? 70) = true -> hexval (h + 32) = hexval h.
+Proof. exact hexval_case. Qed.
+Print Assumptions C01_hex_digit_case_irrelevant.
+Example C01_hex_digit_case_nonvacuous : (65 <=? 70) && (70 <=? 70) = true /\ hexval 102 = Some 15.
+Proof. vm_compute. auto. Qed.
+Example C01_route_function_of_declared_set_nonvacuous :
+  let sites := [(bs "a.com/x"%string, 1); (bs "*.*.com"%string, 2); (bs "*.a.com:80"%string, 3); (bs ":2015/x"%string, 4)] in
+  NoDup (map addr_key sites) /\ NoDup (map addr_key (rev sites)) /\
+  (forall a s, In (a, s) sites <-> In (a, s) (rev sites)) /\
+  tserve (tbuild (rev sites)) [] (bs "q.b.com"%string) (bs "/"%string) 1 = Site 2 (bs "/"%string).
+Proof.
+  cbv zeta. repeat split; try (repeat constructor; vm_compute; intuition discriminate);
+  try apply in_rev; try (intros H; apply in_rev in H; exact H).
+Qed.
+Example C01_target_routes_by_decoded_path_nonvacuous :
+  target_ok (bs "/%E3%83%89%2fx?q"%string) = true /\
+  spells (upto_q (bs "/%E3%83%89%2fx?q"%string)) [47; 227; 131; 137; 47; 120].
+Proof. split; [vm_compute; reflexivity|apply unescape_spells; vm_compute; reflexivity]. Qed.
+
+(* ===================== host folding as Go does it (non-ASCII, invalid UTF-8) ================== *)
+(* [tserve_u] is serveHTTP/Insert with strings.ToLower modelled as Go computes it on non-ASCII
+   text (UTF-8 decoding, ill-formed bytes -> U+FFFD, unicode.ToLower on the code points of the
+   modelled blocks). The outcome depends on the request host only through its folded form ... *)
+Theorem C01_route_depends_on_folded_host_only : forall sites xf hh hh' up proto,
+  lower_key (strip_port hh ++ up) = lower_key (strip_port hh' ++ up) ->
+  tserve_u sites xf hh up proto = tserve_u sites xf hh' up proto.
+Proof. exact route_u_fold_only. Qed.
+Print Assumptions C01_route_depends_on_folded_host_only.
+Example C01_route_depends_on_folded_host_only_nonvacuous :
+  (* "CAFÉ.com:80" vs "café.com"; KELVIN SIGN "K.com" vs "k.com" *)
+  lower_key (strip_port (bs "CAF"%string ++ [195;137] ++ bs ".com:80"%string) ++ [SLASH]) =
+  lower_key (strip_port (bs "caf"%string ++ [195;169] ++ bs ".com"%string) ++ [SLASH]) /\
+  lower_key (strip_port ([226;132;170] ++ bs ".com"%string) ++ [SLASH]) = lower_key (strip_port (bs "k.com"%string) ++ [SLASH]) /\
+  tserve_u [(bs "k.com"%string, 5)] [] ([226;132;170] ++ bs ".com"%string) [SLASH] 1 = Site 5 [SLASH].
+Proof. vm_compute. repeat split; reflexivity. Qed.
+
+(* ... and on the declared addresses only through their folded forms *)
+Theorem C01_route_depends_on_folded_addresses_only : forall sites sites' xf hh up proto,
+  map (fun s => (lower_key (fst s), snd s)) sites = map (fun s => (lower_key (fst s), snd s)) sites' ->
+  tserve_u sites xf hh up proto = tserve_u sites' xf hh up proto.
+Proof. exact route_u_declared_fold_only. Qed.
+Print Assumptions C01_route_depends_on_folded_addresses_only.
+Example C01_route_depends_on_folded_addresses_only_nonvacuous :
+  map (fun s => (lower_key (fst s), snd s)) [(bs "CAF"%string ++ [195;137] ++ bs ".com/X"%string, 1)] =
+  map (fun s => (lower_key (fst s), snd s)) [(bs "caf"%string ++ [195;169] ++ bs ".com/X"%string, 1)].
+Proof. vm_compute. reflexivity. Qed.
+
+(* on ASCII text Go's folding is the A-Z folding of the rest of the model *)
+Theorem C01_go_lower_ascii : forall s, forallb (fun c => c <? 128) s = true -> go_lower s = to_lower s.
+Proof. exact go_lower_ascii. Qed.
+Print Assumptions C01_go_lower_ascii.
+Example C01_go_lower_ascii_nonvacuous : forallb (fun c => c <? 128) (bs "B.a.Com"%string) = true.
+Proof. vm_compute. reflexivity. Qed.
+
+(* "host matching ignores letter case" and nothing else is FALSE of the code on ill-formed text:
+   the declared host a<FF>.com answers a request for a<FE>.com — both ill-formed bytes fold to
+   U+FFFD — although the two names differ in a byte that is no letter (A-Z folding keeps them
+   apart) *)
+Theorem C01_host_match_only_case_insensitive_refuted :
+  exists sites hh up,
+    sites = [([97; 255; 46; 99; 111; 109], 1)] /\ hh = [97; 254; 46; 99; 111; 109] /\
+    to_lower hh <> to_lower [97; 255; 46; 99; 111; 109] /\
+    tserve_u sites [] hh up 1 = Site 1 [SLASH].
+Proof. exact invalid_utf8_hosts_collide. Qed.
+Print Assumptions C01_host_match_only_case_insensitive_refuted.
+
+(* the strongest true form: when the host texts (declared and requested) are ASCII — all that
+   net/http's Host-header check lets through — the Go folding is the A-Z folding, [tserve_u] IS
+   [tserve], and every theorem above (most specific pattern, case/port insensitivity, order
+   independence, spec) holds of it *)
+Theorem C01_host_match_only_case_insensitive_partial : forall sites xf hh up proto,
+  forallb (fun s => ascii_host (fst s)) sites = true -> ascii_host (strip_port hh ++ up) = true ->
+  tserve_u sites xf hh up proto = tserve (tbuild sites) xf hh up proto.
+Proof. exact route_u_ascii. Qed.
+Print Assumptions C01_host_match_only_case_insensitive_partial.
+Example C01_host_match_only_case_insensitive_partial_nonvacuous :
+  forallb (fun s => ascii_host (fst s)) [(bs "*.A.com:80/caf"%string ++ [195;169], 1)] = true /\
+  ascii_host (strip_port (bs "B.a.COM:8080"%string) ++ bs "/caf"%string ++ [195;169;47]) = true /\
+  tserve_u [(bs "*.A.com:80/caf"%string ++ [195;169], 1)] [] (bs "B.a.COM:8080"%string) (bs "/caf"%string ++ [195;169;47]) 1
+    = Site 1 (bs "/caf"%string ++ [195;169]).
+Proof. vm_compute. repeat split; reflexivity. Qed.
